@@ -7,6 +7,8 @@
 
 #include "vf_c07.hpp"
 
+#include <bitset>
+
 namespace c07 {
 template <>
 struct Make<bool> {
@@ -59,8 +61,9 @@ struct Cells {
     std::string skipped_list;
 };
 
-template <typename... Ts, typename Arg>
-void cell(Cells& c, char const* vname, char const* aname, TL<Ts...>, Arg arg)
+// Arg is given explicitly so that reference arguments (arrays, T&) reach the variant undecayed
+template <typename Arg, typename... Ts>
+void cell_as(Cells& c, char const* vname, char const* aname, TL<Ts...>, std::type_identity_t<Arg> arg)
 {
     using SV = std::variant<Ts...>;
     using EV = etl::variant<Ts...>;
@@ -92,8 +95,21 @@ void cell(Cells& c, char const* vname, char const* aname, TL<Ts...>, Arg arg)
                     using T0 = std::tuple_element_t<Is, std::tuple<Ts...>>;
                     if constexpr (std::is_default_constructible_v<T0> || std::is_constructible_v<T0, int>) {
                         Arg a1 = arg, a2 = arg;
-                        SV s(std::in_place_index<Is>, Make<T0>::arg(1));
-                        EV e(etl::in_place_index<Is>, Make<T0>::arg(1));
+                        constexpr bool from_arg = std::is_constructible_v<T0, decltype(Make<T0>::arg(1))>;
+                        SV s = [] {
+                            if constexpr (from_arg) {
+                                return SV(std::in_place_index<Is>, Make<T0>::arg(1));
+                            } else {
+                                return SV(std::in_place_index<Is>);
+                            }
+                        }();
+                        EV e = [] {
+                            if constexpr (from_arg) {
+                                return EV(etl::in_place_index<Is>, Make<T0>::arg(1));
+                            } else {
+                                return EV(etl::in_place_index<Is>);
+                            }
+                        }();
                         s = static_cast<Arg&&>(a1);
                         char sit2[80];
                         std::snprintf(sit2, sizeof sit2, "arg-%s,from-index-%zu", aname, Is);
@@ -110,6 +126,11 @@ void cell(Cells& c, char const* vname, char const* aname, TL<Ts...>, Arg arg)
                 ...);
         }(std::index_sequence_for<Ts...>{});
     }
+}
+template <typename... Ts, typename Arg>
+void cell(Cells& c, char const* vname, char const* aname, TL<Ts...> l, Arg arg)
+{
+    cell_as<Arg>(c, vname, aname, l, arg);
 }
 static char const kLit[] = "hello";
 
@@ -128,6 +149,102 @@ void arith_args(Cells& c, char const* vname, L l)
     cell(c, vname, "unsigned long", l, 2UL);
     cell(c, vname, "float", l, 2.0F);
     cell(c, vname, "double", l, 2.0);
+}
+
+// ---------------------------------------------------------------- argument zoo: class types with conversion functions, enums, nullptr, arrays
+struct ToBool {
+    operator bool() const { return true; } // NOLINT implicit on purpose
+};
+struct ToInt {
+    operator int() const { return 2; } // NOLINT
+};
+struct ToDouble {
+    operator double() const { return 2.5; } // NOLINT
+};
+struct ToLong {
+    operator long() const { return 2L; } // NOLINT
+};
+struct ToBoolAndInt {
+    operator bool() const { return true; } // NOLINT
+    operator int() const { return 2; }     // NOLINT
+};
+struct ToIntAndDouble {
+    operator int() const { return 2; }       // NOLINT
+    operator double() const { return 2.5; }  // NOLINT
+};
+struct ExplicitBool {
+    explicit operator bool() const { return true; }
+};
+struct ExplicitInt {
+    explicit operator int() const { return 2; }
+};
+struct ToIntRef {
+    int x = 2;
+    operator int&() { return x; } // NOLINT
+};
+struct ToBoolConstRef {
+    bool b = true;
+    operator bool const&() const { return b; } // NOLINT
+};
+struct ToStr {
+    operator Str() const { return Str("s"); } // NOLINT
+};
+struct ToCharPtr {
+    operator char const*() const { return "p"; } // NOLINT
+};
+enum Unscoped { u0, u1, u2 };
+enum SmallChar : char { sc1 = 1 };
+enum BoolEnum : bool { be0, be1 };
+enum class Scoped { s0, s1 };
+inline long long enc(Unscoped e) { return 700 + (int)e; }
+inline long long enc(Scoped e) { return 710 + (int)e; }
+static std::bitset<8> g_bits(5);
+static char g_mutable_text[6] = "world";
+
+template <typename L>
+void zoo_args(Cells& c, char const* vname, L l)
+{
+    cell(c, vname, "class->bool", l, ToBool{});
+    cell(c, vname, "class->int", l, ToInt{});
+    cell(c, vname, "class->double", l, ToDouble{});
+    cell(c, vname, "class->long", l, ToLong{});
+    cell(c, vname, "class->bool+int", l, ToBoolAndInt{});
+    cell(c, vname, "class->int+double", l, ToIntAndDouble{});
+    cell(c, vname, "class->explicit bool", l, ExplicitBool{});
+    cell(c, vname, "class->explicit int", l, ExplicitInt{});
+    cell(c, vname, "class->int&", l, ToIntRef{});
+    cell(c, vname, "class->bool const&", l, ToBoolConstRef{});
+    cell(c, vname, "class->Str", l, ToStr{});
+    cell(c, vname, "class->char const*", l, ToCharPtr{});
+    cell(c, vname, "std::true_type", l, std::true_type{});
+    cell(c, vname, "std::false_type", l, std::false_type{});
+    cell(c, vname, "std::integral_constant<int,2>", l, std::integral_constant<int, 2>{});
+    cell(c, vname, "std::bitset<8>::reference", l, g_bits[0]);
+    cell(c, vname, "unscoped enum", l, u2);
+    cell(c, vname, "enum : char", l, sc1);
+    cell(c, vname, "enum : bool", l, be1);
+    cell(c, vname, "enum class", l, Scoped::s1);
+    cell(c, vname, "nullptr_t", l, nullptr);
+    cell(c, vname, "char const*", l, static_cast<char const*>(kLit));
+    cell(c, vname, "int*", l, static_cast<int*>(nullptr));
+    cell_as<char const(&)[6]>(c, vname, "char const(&)[6]", l, kLit);
+    cell_as<char(&)[6]>(c, vname, "char(&)[6]", l, g_mutable_text);
+    {
+        static ToBool tb;
+        static int lv = 2;
+        static int const clv = 2;
+        static bool blv = true;
+        cell_as<ToBool&>(c, vname, "class->bool, lvalue", l, tb);
+        cell_as<int&>(c, vname, "int&", l, lv);
+        cell_as<int const&>(c, vname, "int const&", l, clv);
+        cell_as<bool&>(c, vname, "bool&", l, blv);
+    }
+}
+template <typename L>
+void all_args(Cells& c, char const* vname, L l)
+{
+    arith_args(c, vname, l);
+    zoo_args(c, vname, l);
 }
 
 struct Cells;
@@ -152,6 +269,24 @@ void run_all()
     cell(c, "variant<int,Str>", "char const*", TL<int, Str>{}, static_cast<char const*>(kLit));
     cell(c, "variant<bool,Str>", "bool", TL<bool, Str>{}, true);
     cell(c, "variant<bool,int>", "int*", TL<bool, int>{}, static_cast<int*>(nullptr));
+    // alternative lists with bool in every position (and some without), against the whole argument zoo
+    all_args(c, "variant<bool,int>", TL<bool, int>{});
+    all_args(c, "variant<int,bool>", TL<int, bool>{});
+    all_args(c, "variant<bool,int,double>", TL<bool, int, double>{});
+    all_args(c, "variant<int,bool,double>", TL<int, bool, double>{});
+    all_args(c, "variant<int,double,bool>", TL<int, double, bool>{});
+    all_args(c, "variant<bool,Str>", TL<bool, Str>{});
+    all_args(c, "variant<Str,bool>", TL<Str, bool>{});
+    all_args(c, "variant<long,Str,bool>", TL<long, Str, bool>{});
+    all_args(c, "variant<bool,tracked-cm>", TL<bool, TCM>{});
+    all_args(c, "variant<tracked-cm,bool>", TL<TCM, bool>{});
+    all_args(c, "variant<char,bool,long>", TL<char, bool, long>{});
+    all_args(c, "variant<bool>", TL<bool>{});
+    all_args(c, "variant<bool,float>", TL<bool, float>{});
+    zoo_args(c, "variant<int,double>", TL<int, double>{});
+    zoo_args(c, "variant<int,tracked-cm,pair<int,int>>", TL<int, TCM, PairII>{});
+    zoo_args(c, "variant<Unscoped,int>", TL<Unscoped, int>{});
+    zoo_args(c, "variant<Scoped,bool>", TL<Scoped, bool>{});
     run_opt_cells(c);
     vf::sample("selection cells", "%u (variant, argument type[, previous index]) cells compared; %u skipped because exactly one library rejects the argument; %u rejected by both", c.compared, c.skipped, c.both_reject);
     // the skip list is long: split over several samples
